@@ -1,24 +1,25 @@
 #!/bin/bash
-# usage: mutant_eval.sh <prop> <n> [checks...]
-# Evaluates a seeded change (/tmp/mut/<prop>/OUT/<n>) in a scratch worktree: suite still passes,
-# demonstration fails with / passes without the change, and which of our checks flag it.
-prop=$1; n=$2; shift 2
+# usage: mutant_eval.sh <id> <srcdir> [checks...]      e.g.  mutant_eval.sh C07-3 /tmp/mut/C07/OUT/1 C07 C14
+#                                                           mutant_eval.sh C07-1 /verif/seeded/C07-1 C07
+# Evaluates a seeded change (patch.diff + demonstration in <srcdir>) in a scratch worktree: suite still
+# passes, demonstration fails with / passes without the change, and which of our checks flag it.
+id=$1; src=$2; shift 2
+prop=${id%%-*}
 checks="$@"; [ -z "$checks" ] && checks=$prop
-src=/tmp/mut/$prop/OUT/$n
-# a kept change: /verif/seeded/<prop>-<n> (demonstration stored as *_test.go.txt)
-if [ -d /verif/seeded/$prop-$n ]; then src=/verif/seeded/$prop-$n; fi
-wt=/tmp/mw/$prop-$n
-res=/tmp/mw/results/$prop-$n.txt
+wt=/tmp/mw/$id
+res=/tmp/mw/results/$id.txt
 mkdir -p /tmp/mw/results
 export GOPROXY=off GOSUMDB=off GOTOOLCHAIN=local; unset GOFLAGS
 git -C /repo worktree remove --force $wt 2>/dev/null
 git -C /repo worktree add -q --detach $wt HEAD || exit 2
 {
-echo "== $prop/$n"
+echo "== $id ($src)"
 cd $wt
 if git apply $src/patch.diff 2>/dev/null; then echo "apply: ok"; elif git apply -3 $src/patch.diff 2>/dev/null; then echo "apply: ok (3-way)"; else echo "apply: FAILED"; fi
 git diff --stat | tail -1
 if go build ./... 2>&1 | tail -3; then :; fi
+# SKIP_VERIFY=1: regression of an already verified change (apply + checks only)
+if [ -z "$SKIP_VERIFY" ]; then
 # existing suite with the change (private network namespace: fixed ports)
 suite=$(unshare -n sh -c "ip link set lo up; cd $wt && go test -json -vet=off -count=1 -p 1 -timeout 20m ./... 2>&1" | python3 -c "
 import json,sys
@@ -55,6 +56,7 @@ if [ -n "$demo" ]; then
   git apply $src/patch.diff 2>/dev/null || git apply -3 $src/patch.diff 2>/dev/null
 else
   echo "demo: no test file found"
+fi
 fi
 cd /verif
 for c in $checks; do
